@@ -413,6 +413,40 @@ def merge_hist(a, b):
     return a
 
 
+def replay_mode(chk, cfg, harness, driver, path):
+    """--replay <file>: re-run the harness stream recorded in a replay file on the current tree and report whether the recorded
+    failure (same case, or any failure when the file names no case) shows again. Exit 1 + VIOLATION line if it does, exit 0 otherwise.
+    Writes no evidence."""
+    try:
+        rep = json.load(open(path))
+    except Exception as e:
+        print("replay: cannot read %s: %s" % (path, e)); sys.exit(2)
+    if rep.get("property") not in (None, chk.prop):
+        print("replay: %s belongs to property %s, not %s" % (path, rep.get("property"), chk.prop)); sys.exit(2)
+    cands = [rep] + [d for d in rep.get("details", []) if isinstance(d, dict)]
+    hargs = next((c["harness_args"] for c in cands if c.get("harness_args")), None)
+    if not hargs:
+        print("replay: %s records no harness stream (a broken theorem / audit finding is re-checked by running the check itself)" % path)
+        sys.exit(2)
+    if isinstance(hargs, str):
+        hargs = [x.strip(" '\"") for x in hargs.strip("[]").split(",")]
+    cid = rep.get("case")
+    if cid is None:
+        m = next((c.get("first_diff") or c.get("message") for c in cands if c.get("first_diff") or c.get("message")), None)
+        cid = case_of(m) if m else None
+    s = Stream(chk, harness, driver, hargs, "replay")
+    hits = [l for l in s.diffs + s.fails if cid is None or case_of(l) == str(cid)]
+    chk.log("replay of %s: harness args %s, case %s: %d matching DIFF/PROPFAIL line(s) (stream total: %d diffs, %d propfails)%s"
+            % (os.path.basename(path), " ".join(map(str, hargs)), cid, len(hits), len(s.diffs), len(s.fails), " STREAM CRASHED" if s.crashed else ""))
+    for l in hits[:10]:
+        print(l[:600])
+    if hits or s.crashed:
+        print("VIOLATION property=%s replay=%s" % (chk.prop, path), flush=True)
+        sys.exit(1)
+    print("replay: the recorded failure does not show on the current tree", flush=True)
+    sys.exit(0)
+
+
 def standard_check(cfg):
     """
     cfg keys:
@@ -463,6 +497,8 @@ def standard_check(cfg):
         chk.finish("proof", {"obligations": max(1, len(info["theorems"])), "discharged": 0, "checker_cmd": "lake build",
                              "trusted_base": cfg.get("trusted_base", []), "explanation": "harness build failure"})
     driver = driver_path(cfg["exe"])
+    if a.replay:
+        replay_mode(chk, cfg, harness, driver, a.replay)
     total = {}
     all_diffs, all_fails, samples, crashed = [], [], [], []
     streams = []
